@@ -126,7 +126,11 @@ pub enum Rule {
     /// Send <=> payload Send, Sync <=> payload Sync
     BoxLike,
 }
-pub const KINDS: [(&str, usize, &str, Rule); 12] = [
+pub const KINDS: [(&str, usize, &str, Rule); 15] = [
+    // plain payload containers: structural auto traits
+    ("HeaderSlice<H,T>", 2, "triomphe::HeaderSlice<{0}, {1}>", Rule::BoxLike),
+    ("HeaderWithLength<H>", 1, "triomphe::HeaderWithLength<{0}>", Rule::BoxLike),
+    ("HeaderSliceWithLengthProtected<H,T>", 2, "triomphe::HeaderSliceWithLengthProtected<{0}, {1}>", Rule::BoxLike),
     ("Arc<T>", 1, "triomphe::Arc<{0}>", Rule::ArcLike),
     ("ThinArc<H,T>", 2, "triomphe::ThinArc<{0}, {1}>", Rule::ArcLike),
     ("OffsetArc<T>", 1, "triomphe::OffsetArc<{0}>", Rule::ArcLike),
@@ -377,6 +381,84 @@ pub fn borrow_templates() -> Vec<(&'static str, String, String)> {
         "let t; { let x = 5u8; t = triomphe::ThinArc::from_header_and_slice((), &[&x]); } let _n = t.slice.len();".to_string(),
         "let x = 5u8; let t = triomphe::ThinArc::from_header_and_slice((), &[&x]); let _n = t.slice.len();".to_string(),
     ));
+    // every public function returning a reference: the reference cannot outlive / alias
+    v.push((
+        "UniqueArc::write reference outlives the UniqueArc",
+        "let r: &mut String; { let mut u = triomphe::UniqueArc::<String>::new_uninit(); r = u.write(String::new()); } r.push('x');".to_string(),
+        "let mut u = triomphe::UniqueArc::<String>::new_uninit(); let r: &mut String = u.write(String::new()); r.push('x');".to_string(),
+    ));
+    v.push((
+        "two UniqueArc::write references alive at once",
+        "let mut u = triomphe::UniqueArc::<String>::new_uninit(); let a = u.write(String::new()); let b = u.write(String::new()); a.push('x'); b.push('y');".to_string(),
+        "let mut u = triomphe::UniqueArc::<String>::new_uninit(); let a = u.write(String::new()); a.push('x'); let b = u.write(String::new()); b.push('y');".to_string(),
+    ));
+    v.push((
+        "deprecated Arc::write reference outlives the Arc",
+        "let r: &mut String; { let mut a = triomphe::Arc::<std::mem::MaybeUninit<String>>::new_uninit(); r = a.write(String::new()); } r.push('x');".to_string(),
+        "let mut a = triomphe::Arc::<std::mem::MaybeUninit<String>>::new_uninit(); let r: &mut String = a.write(String::new()); r.push('x');".to_string(),
+    ));
+    v.push((
+        "deprecated as_mut_slice reference outlives the Arc",
+        "let r: &mut [std::mem::MaybeUninit<u8>]; { let mut a = triomphe::Arc::<[std::mem::MaybeUninit<u8>]>::new_uninit_slice(3); r = a.as_mut_slice(); } let _n = r.len();".to_string(),
+        "let mut a = triomphe::Arc::<[std::mem::MaybeUninit<u8>]>::new_uninit_slice(3); let r: &mut [std::mem::MaybeUninit<u8>] = a.as_mut_slice(); let _n = r.len();".to_string(),
+    ));
+    v.push((
+        "Protected::header_mut and slice_mut references alive at once",
+        format!("let mut t = {mk_thin}; t.with_arc_mut(|a| {{ let p = triomphe::Arc::get_mut(a).unwrap(); let h = p.header_mut(); let s = p.slice_mut(); *h = 1; s[0] = 1; }});"),
+        format!("let mut t = {mk_thin}; t.with_arc_mut(|a| {{ let p = triomphe::Arc::get_mut(a).unwrap(); let h = p.header_mut(); *h = 1; let s = p.slice_mut(); s[0] = 1; }});"),
+    ));
+    v.push((
+        "UniqueArc Deref reference outlives the UniqueArc",
+        "let r: &String; { let u = triomphe::UniqueArc::new(String::new()); r = &*u; } let _n = r.len();".to_string(),
+        "let u = triomphe::UniqueArc::new(String::new()); let r: &String = &*u; let _n = r.len();".to_string(),
+    ));
+    v.push((
+        "ArcBorrow Deref reference outlives the ArcBorrow's source",
+        format!("let r: &String; {{ let a = {mk_arc}; let b = a.borrow_arc(); r = &*b; }} let _n = r.len();"),
+        format!("let a = {mk_arc}; let b = a.borrow_arc(); let r: &String = &*b; let _n = r.len();"),
+    ));
+    v.push((
+        "Borrow::borrow reference outlives the Arc",
+        format!("let r: &String; {{ let a = {mk_arc}; r = std::borrow::Borrow::borrow(&a); }} let _n = r.len();"),
+        format!("let a = {mk_arc}; let r: &String = std::borrow::Borrow::borrow(&a); let _n = r.len();"),
+    ));
+    v.push((
+        "AsRef::as_ref reference outlives the Arc",
+        format!("let r: &String; {{ let a = {mk_arc}; r = a.as_ref(); }} let _n = r.len();"),
+        format!("let a = {mk_arc}; let r: &String = a.as_ref(); let _n = r.len();"),
+    ));
+    v.push((
+        "second-variant ArcUnion outlives data its payload borrows",
+        "let u: triomphe::ArcUnion<u8, &String>; { let x = String::new(); u = triomphe::ArcUnion::from_second(triomphe::Arc::new(&x)); } let _s = u.is_second();".to_string(),
+        "let x = String::new(); let u: triomphe::ArcUnion<u8, &String> = triomphe::ArcUnion::from_second(triomphe::Arc::new(&x)); let _s = u.is_second();".to_string(),
+    ));
+    v.push((
+        "first-variant ArcUnion outlives data its payload borrows",
+        "let u: triomphe::ArcUnion<&String, u8>; { let x = String::new(); u = triomphe::ArcUnion::from_first(triomphe::Arc::new(&x)); } let _s = u.is_first();".to_string(),
+        "let x = String::new(); let u: triomphe::ArcUnion<&String, u8> = triomphe::ArcUnion::from_first(triomphe::Arc::new(&x)); let _s = u.is_first();".to_string(),
+    ));
+    // variance: a payload lifetime can be shortened (legal twin) but never lengthened, in every parameter position
+    for (name, long, short) in [
+        ("Arc<T>", "triomphe::Arc<&'static u8>", "triomphe::Arc<&'a u8>"),
+        ("Arc<[T]>", "triomphe::Arc<[&'static u8]>", "triomphe::Arc<[&'a u8]>"),
+        ("OffsetArc<T>", "triomphe::OffsetArc<&'static u8>", "triomphe::OffsetArc<&'a u8>"),
+        ("UniqueArc<T>", "triomphe::UniqueArc<&'static u8>", "triomphe::UniqueArc<&'a u8>"),
+        ("ThinArc<H,_>", "triomphe::ThinArc<&'static u8, u8>", "triomphe::ThinArc<&'a u8, u8>"),
+        ("ThinArc<_,T>", "triomphe::ThinArc<u8, &'static u8>", "triomphe::ThinArc<u8, &'a u8>"),
+        ("ArcUnion<A,_>", "triomphe::ArcUnion<&'static u8, u8>", "triomphe::ArcUnion<&'a u8, u8>"),
+        ("ArcUnion<_,B>", "triomphe::ArcUnion<u8, &'static u8>", "triomphe::ArcUnion<u8, &'a u8>"),
+        ("ArcBorrow<'b,T> in T", "triomphe::ArcBorrow<'a, &'static u8>", "triomphe::ArcBorrow<'a, &'a u8>"),
+        ("ArcBorrow<'b,T> in 'b", "triomphe::ArcBorrow<'static, u8>", "triomphe::ArcBorrow<'a, u8>"),
+        ("ArcUnionBorrow<'b,A,B> in 'b", "triomphe::ArcUnionBorrow<'static, u8, u16>", "triomphe::ArcUnionBorrow<'a, u8, u16>"),
+        ("ArcUnionBorrow<'b,A,B> in B", "triomphe::ArcUnionBorrow<'a, u8, &'static u8>", "triomphe::ArcUnionBorrow<'a, u8, &'a u8>"),
+        ("Arc<HeaderSlice<H,[T]>> in H", "triomphe::Arc<triomphe::HeaderSlice<&'static u8, [u8]>>", "triomphe::Arc<triomphe::HeaderSlice<&'a u8, [u8]>>"),
+    ] {
+        v.push((
+            Box::leak(format!("lengthening a payload lifetime through {}", name).into_boxed_str()),
+            format!("fn lengthen<'a>(x: {short}) -> {long} {{ x }}"),
+            format!("fn shorten<'a>(x: {long}) -> {short} {{ x }}"),
+        ));
+    }
     v.push((
         "sending an Arc of a non-Send payload to a thread",
         "let a = triomphe::Arc::new(std::cell::Cell::new(1u8)); std::thread::spawn(move || { a.set(2); });".to_string(),
@@ -385,7 +467,7 @@ pub fn borrow_templates() -> Vec<(&'static str, String, String)> {
     v
 }
 
-const BORROW_CODES: [&str; 12] = ["LIFETIME", "E0499", "E0502", "E0505", "E0506", "E0515", "E0521", "E0597", "E0716", "E0373", "E0503", "E0713"];
+const BORROW_CODES: [&str; 13] = ["E0621", "LIFETIME", "E0499", "E0502", "E0505", "E0506", "E0515", "E0521", "E0597", "E0716", "E0373", "E0503", "E0713"];
 
 pub fn borrow_probes() -> Vec<Probe> {
     let mut out = vec![];
@@ -432,7 +514,7 @@ pub struct BatchResult {
 }
 
 pub fn compile_batch(lib: &Lib, dir: &Path, tag: &str, probes: &[&Probe]) -> Result<BatchResult, String> {
-    let mut src = String::from("#![allow(unused, dead_code, dropping_references, dropping_copy_types)]\n");
+    let mut src = String::from("#![allow(unused, dead_code, deprecated, dropping_references, dropping_copy_types)]\n");
     let mut ranges: Vec<(usize, usize)> = vec![];
     let mut line = 2;
     for p in probes {
